@@ -304,3 +304,92 @@ func parseModelValue(v string, k Kind, w int) (uint64, bool) {
 	}
 	return 0, false
 }
+
+// oneShot runs a complete script in a fresh, non-incremental solver process (the solvers'
+// default strategies are much stronger there than under push/pop).
+func oneShot(kind string, script []string, extras []string, timeoutMs int, names []string) (string, map[string]string) {
+	var cmd *exec.Cmd
+	secs := timeoutMs/1000 + 1
+	switch kind {
+	case "cvc5":
+		cmd = exec.Command("cvc5", "--produce-models", "--lang=smt2", fmt.Sprintf("--tlimit=%d", timeoutMs))
+	case "z3-new":
+		cmd = exec.Command("z3-new", "-in", "-smt2", fmt.Sprintf("-T:%d", secs))
+	default:
+		cmd = exec.Command("z3", "-in", "-smt2", fmt.Sprintf("-T:%d", secs))
+	}
+	var sb strings.Builder
+	if kind == "cvc5" {
+		sb.WriteString("(set-logic ALL)\n")
+	}
+	sb.WriteString("(set-option :produce-models true)\n")
+	for _, l := range script {
+		sb.WriteString(l)
+		sb.WriteByte('\n')
+	}
+	for _, e := range extras {
+		sb.WriteString("(assert " + e + ")\n")
+	}
+	sb.WriteString("(check-sat)\n")
+	if len(names) > 0 {
+		sb.WriteString("(get-value (" + strings.Join(names, " ") + "))\n")
+	}
+	cmd.Stdin = strings.NewReader(sb.String())
+	st := gStats[kind]
+	t0 := time.Now()
+	out, _ := cmd.Output()
+	atomic.AddInt64(&st.NanosSum, int64(time.Since(t0)))
+	atomic.AddInt64(&st.Queries, 1)
+	text := strings.TrimSpace(string(out))
+	first := text
+	rest := ""
+	if i := strings.IndexByte(text, '\n'); i >= 0 {
+		first, rest = strings.TrimSpace(text[:i]), text[i+1:]
+	}
+	switch first {
+	case "unsat":
+		atomic.AddInt64(&st.Unsat, 1)
+		return "unsat", nil
+	case "sat":
+		atomic.AddInt64(&st.Sat, 1)
+		model := map[string]string{}
+		if len(names) > 0 && !strings.Contains(rest, "(error") {
+			toks := tokenize(rest)
+			pos := 0
+			var parse func() interface{}
+			parse = func() interface{} {
+				if pos >= len(toks) {
+					return nil
+				}
+				t := toks[pos]
+				pos++
+				if t == "(" {
+					var l []interface{}
+					for pos < len(toks) && toks[pos] != ")" {
+						l = append(l, parse())
+					}
+					pos++
+					return l
+				}
+				return t
+			}
+			top, _ := parse().([]interface{})
+			for _, e := range top {
+				pair, ok := e.([]interface{})
+				if ok && len(pair) == 2 {
+					if name, ok := pair[0].(string); ok {
+						model[name] = flatten(pair[1])
+					}
+				}
+			}
+		}
+		return "sat", model
+	}
+	if strings.Contains(text, "(error") {
+		atomic.AddInt64(&st.Errors, 1)
+		gLastSolverError.Store(text)
+		return "error", nil
+	}
+	atomic.AddInt64(&st.Unknown, 1)
+	return "unknown", nil
+}
